@@ -458,8 +458,14 @@ def c05_l(ctx):
         ex = ctx.ex(m)
         refusals = []
         for r in ctx.stmts(m, ast.Raise):
-            for (t, pol, tn) in ctx.guards(m, r):
-                if pol and match(t, pattern('os.path.exists(self.path)')) is not None:
+            gs = ctx.guards(m, r)
+            if not any(pol and match(t, pattern('os.path.exists(self.path)')) is not None
+                       for (t, pol, tn) in gs):
+                continue
+            for (t, pol, tn) in gs:
+                # the existence test itself, or the "is there a path at all" test it sits under
+                if pol and (match(t, pattern('os.path.exists(self.path)')) is not None or
+                            t == pattern_term('self.path')):
                     refusals.append((r, tn))
         cfg = cfg_of(m)
         for s in sts:
